@@ -88,30 +88,26 @@ theorem C17_decoder_io_only_at_end (i : Input) (sea : Bool) (h : 36 ≤ i.size) 
       `Esc .` panics — remote, but a genuine panic of the real code (finding D-redo-len);
     * in vi mode a `YankPop` bound by the application underflows `end - yank_size` after `p`/`P`
       (the cursor is moved back over the last pasted cluster).
-    Proved instead: `C17_editor_no_panic_partial` — **the only panic of a whole read is D43**, and
-    the final state exhibits it (a last insertion longer than 65535 bytes): `next_cmd` in BOTH modes
-    (`C17_next_cmd`: the `unreachable!()`s of `vi_num_args` and `Cmd::redo` are unreachable), every
-    command, all sub-loops, the main loop by induction on the fuel — GIVEN the open obligations
-    `C17_Open` (`Undo`; `YankPop`; `ReplaceChar` with a count above `u16`, which does not exist in the
-    code), a stable segmenter, an indent size that fits `u8`, and the completer contract with `start`
-    on a boundary. -/
+    Proved instead (hypotheses strengthened exactly as follows: the completer's start is on a character
+    boundary at or before the cursor; `indentSize ≤ 255`; the segmenter is `Stable`; the bindings are
+    acceptable, `BindsI`; and the conclusion allows the one real panic, D43):
+    **`C17_editor_no_panic_emacs`** — in emacs mode, if `readline` ends with the panic outcome then its
+    final state has a last insertion longer than 65535 bytes — no further hypothesis; and
+    **`C17_editor_no_panic`** — the same for both modes, where vi mode still assumes `ViPreKeeps` (the
+    dispatch loop keeps the undo-log invariant; everything else is proved for vi as well).  Covered:
+    `next_cmd` in both modes (`C17_next_cmd`, `C17_next_cmd_returns`), every command (`Undo` from the
+    undo-log invariant `UndoLogInv`, `YankPop` from `PopOK`, both carried through the read), all
+    sub-loops, the main loop by induction on the fuel. -/
 def C17_editor_no_panic_statement : Prop :=
   ∀ (S : Segmenter) (U : UData) (cfg : EdCfg) (left right : Text) (inp : Input),
     (∀ t, cfg.validator t ≠ .panic) → cfg.hinterPanicAt = none →
     (∀ t p, (cfg.completer t p).1 ≤ p) →
     (readline S U cfg (KillRing.new 60) left right inp).1 ≠ .panic
 
-/-- the commands for which `execute` is proved panic-free and invariant-preserving: all but three.
-    Left open (each is a hypothesis of `C17_editor_no_panic_partial`):
-    * `Undo` — `Change::undo` slices the line at the recorded indices; no panic needs the C05 log
-      invariant (`C05_undo_past_text`), which is not yet carried through every command and sub-loop
-      (the abort paths truncate the log: `C05_abort_transparent_statement`);
-    * `YankPop` — `end - yank_size`: needs the cross-step fact that the cursor still stands right
-      after the yanked text (`safe_editYankPop` is the conditional step); in vi mode it is FALSE after
-      `P`/`p` (the cursor is moved back one cluster) — reachable only through an application binding
-      of `YankPop` in vi mode;
-    * `ReplaceChar` — `RepeatCount::try_from(count).unwrap()`: needs `count ≤ n ≤ 65535`, i.e. a
-      stable segmenter and the bound on numeric arguments from the keymap. -/
+/-- the commands for which `execute` is proved panic-free and invariant-preserving from `EdWF` alone:
+    all but three.  The other three need more and are proved separately: `Undo` from the undo-log invariant
+    (`rsafe_undo`), `YankPop` from `PopOK` (`rsafe_yankPop`), `ReplaceChar` for counts that fit `u16` and a
+    stable segmenter (`rsafe_replaceChar`); the read carries what they need (`C17_exec_safe`). -/
 def C17_covered : Cmd → Bool
   | .undo _ | .yankPop | .replaceChar _ _ => false
   | _ => true
@@ -499,9 +495,9 @@ theorem C17_editor_no_panic_of_no_D43 (S : Segmenter) (U : UData) (cfg : EdCfg) 
     `C05_log_markers`); `next_cmd` only adds markers (`logK_nextCmd`, both modes); the dispatch loop keeps
     it (`logJ_preCmds`: inside a completion or a search every step does, and an abort restores line and
     log together — `SubLog.facts`, `truncateClosed`); the other steps do not touch line or log. -/
-theorem C17_open_emacs (S : Segmenter) (U : UData) (cfg : EdCfg) (hvi : cfg.vi = false)
-    (hnp : cfg.hinterPanicAt = none) (hb : BindsI cfg)
-    (hcomp : ∀ t p, IsBoundary t (cfg.completer t p).1 ∧ (cfg.completer t p).1 ≤ p) :
+theorem C17_open_of_pre (S : Segmenter) (U : UData) (cfg : EdCfg) (hnp : cfg.hinterPanicAt = none)
+    (hpre : ∀ fuel cmd s, RdInv cfg s → UndoLogInv s →
+      wp (preCmds S U cfg fuel cmd) (fun _ s' => UndoLogInv s') (fun _ _ => True) s) :
     C17_Open S U cfg UndoLogInv where
   undo := fun n s h hj => rsafe_undo S U cfg hnp n h hj
   other := fun cmd hne _ s hj => (logK_execute S U cfg cmd (by
@@ -511,10 +507,47 @@ theorem C17_open_emacs (S : Segmenter) (U : UData) (cfg : EdCfg) (hvi : cfg.vi =
   refresh := (LogK.of_core (keeps_refreshLine S U cfg)).h
   next := fun fuel => (logK_nextCmd S U cfg fuel false false).h
   reset := fun _ hj => hj
-  pre := logJ_preCmds S U cfg ⟨hnp, hb, hcomp⟩ hvi
+  pre := hpre
   susp := fun _ hj => hj
   nextChar := (LogK.of_core keeps_nextChar).h
   insert := fun c => (logK_editInsert S U cfg c 1).h
+
+theorem C17_open_emacs (S : Segmenter) (U : UData) (cfg : EdCfg) (hvi : cfg.vi = false)
+    (hnp : cfg.hinterPanicAt = none) (hb : BindsI cfg)
+    (hcomp : ∀ t p, IsBoundary t (cfg.completer t p).1 ∧ (cfg.completer t p).1 ≤ p) :
+    C17_Open S U cfg UndoLogInv :=
+  C17_open_of_pre S U cfg hnp (logJ_preCmds S U cfg ⟨hnp, hb, hcomp⟩ hvi)
+
+/-- the ONE fact the vi-mode theorem still assumes: the dispatch loop (a completion or an incremental
+    search, whatever is typed inside it, aborted or not) keeps the undo-log invariant.  Proved in emacs
+    mode (`logJ_preCmds`).  In vi mode every step inside the sub-loops keeps it too (`logK_nextCmd`,
+    `logK_lb`, the markers) EXCEPT, unproved, the abort after a key that left insert mode: `end()` has
+    popped the sub-loop's `Begin`, so the listener may MERGE what the sub-loop logs into the entry below
+    the mark (finding D49: `x y Backspace C-r C-s a a Alt-X C-r Alt-X C-g u` gives "xyx", not "xy"); the
+    remaining log then replays to a proper PREFIX of the line (here to "" with the line "x"), which still
+    satisfies `UndoLogInv` because replay is invariant under a suffix of the start text — the argument is
+    not formalized. -/
+def ViPreKeeps (S : Segmenter) (U : UData) (cfg : EdCfg) : Prop :=
+  ∀ fuel cmd s, RdInv cfg s → UndoLogInv s →
+    wp (preCmds S U cfg fuel cmd) (fun _ s' => UndoLogInv s') (fun _ _ => True) s
+
+/-- **The only panic of a whole read is D43 — both modes**, with no `C17_Open`: for helpers that do not
+    panic, an indent size that fits the code's `u8`, a completer that reports a start on a character
+    boundary at or before the cursor, a stable segmenter and acceptable bindings (`BindsI`); in vi mode
+    additionally `ViPreKeeps` (see there).  Emacs mode: nothing else (`C17_editor_no_panic_emacs`). -/
+theorem C17_editor_no_panic (S : Segmenter) (U : UData) (cfg : EdCfg) (left right : Text) (inp : Input)
+    (hv : ∀ t, cfg.validator t ≠ .panic) (hnp : cfg.hinterPanicAt = none)
+    (hcomp : ∀ t p, IsBoundary t (cfg.completer t p).1 ∧ (cfg.completer t p).1 ≤ p)
+    (hind : cfg.indentSize ≤ 255) (hS : S.Stable) (hb : BindsI cfg)
+    (hvi : cfg.vi = true → ViPreKeeps S U cfg) :
+    (readline S U cfg (KillRing.new 60) left right inp).1 = .panic →
+      D43 (readline S U cfg (KillRing.new 60) left right inp).2 := by
+  by_cases h : cfg.vi = true
+  · exact C17_editor_no_panic_partial S U cfg left right inp hv hnp hcomp hind hS hb
+      (C17_open_of_pre S U cfg hnp (hvi h))
+  · have hf : cfg.vi = false := by simpa using h
+    exact C17_editor_no_panic_partial S U cfg left right inp hv hnp hcomp hind hS hb
+      (C17_open_emacs S U cfg hf hnp hb hcomp)
 
 /-- **In emacs mode the only panic of a whole read is D43** — no open obligation left: for helpers that do
     not panic, an indent size that fits the code's `u8`, a completer that reports a start on a character
